@@ -217,7 +217,13 @@ namespace Pistache::Rest
                 collection      = &optional_;
                 break;
             case SegmentType::Splat:
-                return splat_->removeRoute(lower_path);
+                if (splat_ == nullptr)
+                    throw std::runtime_error("Requested does not exist.");
+                // drop the wildcard child once it is empty; whether this node
+                // can be dropped depends on ALL of its children, not on that
+                if (splat_->removeRoute(lower_path))
+                    splat_.reset();
+                return fixed_.empty() && param_.empty() && optional_.empty() && splat_ == nullptr && route_ == nullptr;
             }
 
             try
